@@ -194,6 +194,8 @@ namespace Pistache::Http
                     value      = token.text();
                 }
                 cookie.ext.insert(std::make_pair(std::move(name), std::move(value)));
+                // skip the ';' that ended the value, as match_attribute() does
+                cursor.advance(1);
             }
 
         } while (!cursor.eof());
